@@ -20,6 +20,8 @@ type Host struct {
 	mu    sync.Mutex
 	Trace []string
 	Env   *env.Env
+	// Nested: Env is a child (with an empty external lookup) of the environment that holds the host functions
+	Nested bool
 }
 
 // NewHost builds a fresh environment with the probe functions.
@@ -86,6 +88,36 @@ func NewHost() *Host {
 		}
 		return out
 	})
+	return h
+}
+
+// emptyLookup is an external lookup that knows no name.
+type emptyLookup struct{}
+
+func (emptyLookup) Get(name string) (reflect.Value, error) {
+	return reflect.Value{}, fmt.Errorf("undefined symbol '%s'", name)
+}
+func (emptyLookup) Type(name string) (reflect.Type, error) {
+	return nil, fmt.Errorf("undefined type '%s'", name)
+}
+
+// NewHostFor builds the environment a program is judged in. Every fourth source text (by a hash of
+// the text, so that a replay sees the same environment) runs the way a host that serves many scripts
+// runs them: the probe and helper functions live in a shared base environment, the program runs in
+// a child of it, and the child has an external lookup attached (one that knows no name). Names
+// resolve exactly as in a single environment: the nearest binding along the chain of scopes.
+func NewHostFor(src string) *Host {
+	h := NewHost()
+	var x uint32 = 2166136261
+	for i := 0; i < len(src); i++ {
+		x = (x ^ uint32(src[i])) * 16777619
+	}
+	if x%4 == 0 {
+		child := h.Env.NewEnv()
+		child.SetExternalLookup(emptyLookup{})
+		h.Env = child
+		h.Nested = true
+	}
 	return h
 }
 
